@@ -463,6 +463,18 @@ void Sim::exec_step(const Step& s, ns_t* next_override) {
         auto dl = sim::TimerRegistry::pending_deadlines();
         ns_t best = sim::TIME_MAX;
         for (auto d : dl) if (d > w.now && d < best) best = d;
+        if (s.b == 1) {
+            // variant: the next bytes FROM THE BROKER arrive at a pending timer deadline (any of them within 30 s, seeded choice:
+            // the nearest one is nearly always the 3 s sentry tick): data racing the 1.5*K read timer, the ping timer, the 5 s
+            // handshake timer
+            std::vector<ns_t> c2; for (auto d : dl) if (d > w.now && d - w.now <= 30 * SEC) c2.push_back(d);
+            if (!c2.empty()) {
+                std::sort(c2.begin(), c2.end());
+                auto r = sim::Rng::keyed(w.seed, "racetimer", {(uint64_t)s.id});
+                net.align_next_b2c = c2[r.below(c2.size())] + (ns_t)(s.a % 3) - 1;
+            }
+            break;
+        }
         if (best != sim::TIME_MAX && best - w.now <= 30 * SEC && next_override) {
             *next_override = best + (ns_t)(s.a % 3) - 1;
             w.count("probe.race_timer_placed");
